@@ -92,10 +92,10 @@ type Config struct {
 
 const (
 	strPlain   = "a"
-	strInterp  = "v${x}w"              // must be escaped in both syntaxes
-	strDirect  = "%{if}"               // ditto
-	strEscapes = "l1\n\"q\"\\t é\n"    // quote, backslash, newline, non-ASCII; ends in newline (heredoc-able)
-	strDollar  = "$${x} 100% $ {y} a$" // text that already looks escaped
+	strInterp  = "v${x}w"                    // must be escaped in both syntaxes
+	strDirect  = "%{if}"                     // ditto
+	strEscapes = "l1\n\"q\"\\t é\n"          // quote, backslash, newline, non-ASCII; ends in newline (heredoc-able)
+	strDollar  = "$${x} 100% $ {y} a$"       // text that already looks escaped
 	strHere    = "h${x}\n  %{y} $${z} \\n\n" // heredoc-able, with introducers, a two-character \n and an indented line
 )
 
